@@ -1,5 +1,5 @@
 From Coq Require Import ZArith List Lia Bool.
-Require Import MSPot.
+Require Import Actions MSPot.
 Import ListNotations.
 Open Scope Z_scope.
 
